@@ -271,6 +271,22 @@ pub fn check_moov(o: &mut Outcome, d: &[u8], tree: &[Node], m: &Movie, ctx: &str
                 if arrays.iter().any(|(b, _)| b & 0x40 != 0) {
                     o.fail("hvcC", format!("hvcC.array_reserved.{}", ctx), "hvcC array reserved bit set");
                 }
+                // chromaFormat / bitDepthLumaMinus8 / bitDepthChromaMinus8 are copies of the SPS's values (14496-15 8.3.3.1.2)
+                if r_ok {
+                    if let Some(spsu) = arrays.iter().find(|(b, _)| b & 0x3f == 33).and_then(|(_, u)| u.first()) {
+                        if let Some(want) = hevc_sps_front(spsu) {
+                            let got = (cp[16] & 3, cp[17] & 7, cp[18] & 7);
+                            if got != (want.0, want.1 & 7, want.2 & 7) {
+                                let how = if got == (1, 0, 0) { "record_says_420_8bit" } else { "other" };
+                                o.fail(
+                                    "hvcC",
+                                    format!("hvcC.chroma_bitdepth_vs_sps.{}.{}", how, ctx),
+                                    format!("hvcC says chroma format {} bit depths 8+{} / 8+{}, the SPS it carries says chroma format {} bit depths 8+{} / 8+{}", got.0, got.1, got.2, want.0, want.1, want.2),
+                                );
+                            }
+                        }
+                    }
+                }
                 // progressive files take the sets from the first keyframe, where they were legal NAL units: each array entry
                 // must still be one (its type is the array's type; no 00 00 00 / 00 00 01 / 00 00 02 inside, H.265 7.4.2)
                 if ctx == "progressive" {
@@ -356,6 +372,105 @@ pub fn check_moov(o: &mut Outcome, d: &[u8], tree: &[Node], m: &Movie, ctx: &str
             o.fail("trex", format!("trex.layout.{}", ctx), format!("trex {:?}", t));
         }
     }
+}
+
+/// chroma_format_idc, bit_depth_luma_minus8, bit_depth_chroma_minus8 of an H.265 sequence parameter set NAL unit
+/// (H.265 7.3.2.2.1 with profile_tier_level 7.3.3); None when the unit ends early or holds impossible values.
+pub fn hevc_sps_front(nal: &[u8]) -> Option<(u8, u8, u8)> {
+    if nal.len() < 15 || (nal[0] >> 1) & 0x3f != 33 {
+        return None;
+    }
+    let mut rbsp = Vec::with_capacity(nal.len());
+    let mut zeros = 0;
+    for &b in &nal[2..] {
+        if zeros >= 2 && b == 3 {
+            zeros = 0;
+            continue;
+        }
+        zeros = if b == 0 { zeros + 1 } else { 0 };
+        rbsp.push(b);
+    }
+    struct Bits<'a> {
+        d: &'a [u8],
+        p: usize,
+    }
+    impl Bits<'_> {
+        fn u(&mut self, n: usize) -> Option<u64> {
+            let mut v = 0u64;
+            for _ in 0..n {
+                let byte = *self.d.get(self.p / 8)?;
+                v = (v << 1) | ((byte >> (7 - self.p % 8)) & 1) as u64;
+                self.p += 1;
+            }
+            Some(v)
+        }
+        fn skip(&mut self, n: usize) -> Option<()> {
+            if (self.p + n + 7) / 8 > self.d.len() + 1 && self.p + n > self.d.len() * 8 {
+                return None;
+            }
+            self.p += n;
+            Some(())
+        }
+        fn ue(&mut self) -> Option<u32> {
+            let mut z = 0;
+            while self.u(1)? == 0 {
+                z += 1;
+                if z > 31 {
+                    return None;
+                }
+            }
+            Some((1u32 << z) - 1 + if z > 0 { self.u(z)? as u32 } else { 0 })
+        }
+    }
+    let mut b = Bits { d: &rbsp, p: 0 };
+    b.u(4)?;
+    let msl = b.u(3)? as usize;
+    b.u(1)?;
+    if msl > 6 {
+        return None;
+    }
+    b.skip(96)?;
+    let mut present = Vec::new();
+    for _ in 0..msl {
+        present.push((b.u(1)? == 1, b.u(1)? == 1));
+    }
+    if msl > 0 {
+        for _ in msl..8 {
+            b.u(2)?;
+        }
+    }
+    for (p, l) in present {
+        if p {
+            b.skip(88)?;
+        }
+        if l {
+            b.skip(8)?;
+        }
+    }
+    let _id = b.ue()?;
+    let chroma = b.ue()?;
+    if chroma > 3 {
+        return None;
+    }
+    if chroma == 3 {
+        b.u(1)?;
+    }
+    let w = b.ue()?;
+    let h = b.ue()?;
+    if w == 0 || h == 0 || w > 16384 || h > 16384 {
+        return None;
+    }
+    if b.u(1)? == 1 {
+        for _ in 0..4 {
+            b.ue()?;
+        }
+    }
+    let l8 = b.ue()?;
+    let c8 = b.ue()?;
+    if l8 > 8 || c8 > 8 {
+        return None;
+    }
+    Some((chroma as u8, l8 as u8, c8 as u8))
 }
 
 /// chroma_format_idc, bit_depth_luma_minus8, bit_depth_chroma_minus8 of an H.264 sequence parameter set NAL unit of one of
